@@ -215,39 +215,30 @@ func run() int {
 
 	reports := make([]*symgo.Report, len(runList))
 	var wg sync.WaitGroup
-	sem := make(chan struct{}, *flagJobs)
+	pool := symgo.NewPool(*flagJobs)
+	// longest-first is unknown; start all harnesses, the pool bounds the solver processes
 	for i, d := range runList {
 		wg.Add(1)
 		go func(i int, d *harnessDecl) {
 			defer wg.Done()
-			sem <- struct{}{}
-			defer func() { <-sem }()
-			in, err := symgo.NewInterp(prog, &d.Cfg)
+			var logf *os.File
+			rep, err := symgo.RunHarness(prog, &d.Cfg, pool, func(in *symgo.Interp) {
+				if *flagSMTLog != "" && len(runList) == 1 {
+					logf, _ = os.Create(*flagSMTLog)
+					in.S.Log = logf
+				}
+			})
+			if logf != nil {
+				logf.Close()
+			}
 			if err != nil {
 				fmt.Fprintln(os.Stderr, "solver:", err)
 				return
 			}
-			if *flagSMTLog != "" && len(runList) == 1 {
-				f, _ := os.Create(*flagSMTLog)
-				in.S.Log = f
-				defer f.Close()
-			}
-			defer in.Close()
-			defer func() {
-				if r := recover(); r != nil {
-					fmt.Fprintf(os.Stderr, "engine crash in %s: %v\n", d.Name, r)
-					rep := in.Rep
-					rep.Unsupported = append(rep.Unsupported, fmt.Sprintf("engine crash: %v", r))
-					reports[i] = rep
-					if *flagVerbose {
-						panic(r)
-					}
-				}
-			}()
-			reports[i] = in.Run()
+			reports[i] = rep
 			if *flagVerbose {
-				r := reports[i]
-				fmt.Fprintf(os.Stderr, "%-40s paths=%d queries=%d solver=%.1fs wall=%.1fs failures=%d\n", d.Name, r.Paths, r.Queries, r.SolverTime.Seconds(), r.Wall.Seconds(), len(r.Failures))
+				r := rep
+				fmt.Fprintf(os.Stderr, "%-40s paths=%d queries=%d solver=%.1fs wall=%.1fs workers=%d failures=%d\n", d.Name, r.Paths, r.Queries, r.SolverTime.Seconds(), r.Wall.Seconds(), r.Workers, len(r.Failures))
 			}
 		}(i, d)
 	}
@@ -299,6 +290,9 @@ type harnessJSON struct {
 	SolverS        float64                      `json:"solver_s"`
 	WallS          float64                      `json:"wall_s"`
 	Terms          int                          `json:"terms"`
+	Workers        int                          `json:"workers"`
+	Merges         int                          `json:"if_conversions"`
+	InitNotes      []string                     `json:"init_notes,omitempty"`
 	Unwind         int                          `json:"unwind"`
 	Params         map[string]int64             `json:"params,omitempty"`
 	Failures       []*symgo.Failure             `json:"failures"`
@@ -323,7 +317,7 @@ func summarize(d *harnessDecl, r *symgo.Report) harnessJSON {
 		Paths: r.Paths, PathsCompleted: r.PathsCompleted, PathsAssumeCut: r.PathsAssumeCut,
 		Branches: r.Branches, Forks: r.Forks, Steps: r.Steps, Queries: r.Queries, Sat: r.NSat, Unsat: r.NUnsat,
 		Unknown: r.NUnknown, SolverS: r.SolverTime.Seconds(), WallS: r.Wall.Seconds(), Terms: r.Terms,
-		Unwind: d.Cfg.Unwind, Params: d.Cfg.Params,
+		Unwind: d.Cfg.Unwind, Params: d.Cfg.Params, Workers: r.Workers, Merges: r.Merges, InitNotes: r.InitNotes,
 		Failures: r.Failures, Covers: r.Covers, CoverWitness: r.CoverWitness,
 		UnwindFailures: r.UnwindFailures, Unsupported: r.Unsupported, Unknowns: r.Unknowns, Incomplete: r.Incomplete,
 		Funcs: r.FuncsExecuted, Stubs: r.StubsHit, Models: r.ModelsHit, UFs: r.UFsHit, Witnesses: r.Witnesses,
@@ -599,6 +593,10 @@ func buildDecl(block []string, fn, rel, path string) *harnessDecl {
 		case head == "go":
 			if len(rest) > 0 {
 				d.Cfg.GoPolicy = rest[0]
+			}
+		case head == "ctx":
+			if len(rest) > 0 {
+				d.Cfg.CtxPolicy = rest[0]
 			}
 		case head == "noinit":
 			d.Cfg.NoInit = append(d.Cfg.NoInit, rest...)
